@@ -109,6 +109,37 @@ def _mode_writes(mode, flags):
     return False
 
 
+def _install_fs_killpoint(fp):
+    """fp = {"kind": "kill_at_fs_event", "contains": [...substrings...], "nth": n}: the process is killed
+    right BEFORE the n-th mutating file-system operation (open for writing, rename/replace, remove)
+    whose path contains one of the substrings."""
+    pid = os.getpid()
+    state = {"n": 0}
+
+    def hook(event, args):
+        if os.getpid() != pid or event not in ("open", "os.rename", "os.remove", "os.truncate"):
+            return
+        try:
+            if event == "open":
+                path, mode, flags = args
+                if isinstance(path, int) or not _mode_writes(mode, flags):
+                    return
+                paths = [os.fspath(path)]
+            elif event == "os.rename":
+                paths = [os.fspath(args[0]), os.fspath(args[1])]
+            else:
+                paths = [os.fspath(args[0])]
+            paths = [p.decode("utf-8", "replace") if isinstance(p, bytes) else p for p in paths]
+        except Exception:
+            return
+        if any(c in p for c in fp["contains"] for p in paths):
+            state["n"] += 1
+            if state["n"] == fp["nth"]:
+                os._exit(137)
+
+    sys.addaudithook(hook)
+
+
 def _install_audit(fd, utime_delay):
     pid = os.getpid()
 
@@ -279,7 +310,9 @@ def run_gwf(
             signal.signal(signal.SIGALRM, signal.SIG_DFL)
             signal.alarm(0)
             sys.argv = ["gwf"] + list(args)
-            if failpoint:
+            if failpoint and failpoint.get("kind") == "kill_at_fs_event":
+                _install_fs_killpoint(failpoint)
+            elif failpoint:
                 _install_failpoint(failpoint)
             if audit:
                 afd = os.open(audp, os.O_WRONLY | os.O_CREAT | os.O_APPEND)
